@@ -13,6 +13,9 @@ import Fbr.Lemmas.OvlOps
 import Fbr.Lemmas.OvlAll
 import Fbr.Lemmas.OvlRm
 import Fbr.Lemmas.OvlRmdirB
+import Fbr.Lemmas.OvlEffects
+import Fbr.Lemmas.OvlAttrOps
+import Fbr.Lemmas.OvlLink
 
 namespace Fbr.Thm.C10
 open Fbr.Ovl
@@ -323,6 +326,140 @@ theorem rmdir_refines_plain_fs (s : St) (hc : Consistent s) (p : List Name) (r :
     (∀ q : List Name, merge s'.disk (q ++ p.reverse) = .none) ∧ Consistent s' := by
   have h1 := (runOp_rmdir_gone p s hc).1 r s' h
   exact ⟨merge_none_below s'.disk h1.1.roots _ h1.2, h1.1⟩
+
+/-- a successful create leaves an empty regular file with the requested mode at the path -/
+theorem create_refines_plain_fs (s : St) (hc : Consistent s) (p : List Name) (mode : Nat) (r : Reply) (s' : St)
+    (h : runOp (.create p mode) s = .ok r s') :
+    merge s'.disk p.reverse = .file mode [] 0 ∧ Consistent s' := by
+  obtain ⟨hc', X', hsp, hv⟩ := (runOp_create_eff p mode s hc).1 r s' h
+  exact ⟨by rw [merge_eq_specStat s'.disk hc'.roots, hsp]; exact hv, hc'⟩
+
+/-- a successful mknod leaves a special file with the requested mode at the path -/
+theorem mknod_refines_plain_fs (s : St) (hc : Consistent s) (p : List Name) (mode : Nat) (r : Reply) (s' : St)
+    (h : runOp (.mknod p mode) s = .ok r s') :
+    merge s'.disk p.reverse = .other mode ∧ Consistent s' := by
+  obtain ⟨hc', X', hsp, hv⟩ := (runOp_mknod_eff p mode s hc).1 r s' h
+  exact ⟨by rw [merge_eq_specStat s'.disk hc'.roots, hsp]; exact hv, hc'⟩
+
+/-- a successful symlink leaves a symbolic link with the requested target at the path -/
+theorem symlink_refines_plain_fs (s : St) (hc : Consistent s) (p : List Name) (t : Nat) (r : Reply) (s' : St)
+    (h : runOp (.symlink p t) s = .ok r s') :
+    merge s'.disk p.reverse = .symlink t ∧ Consistent s' := by
+  obtain ⟨hc', ⟨X', hsp, hv⟩, _⟩ := (runOp_symlink_eff p t s hc).1 r s' h
+  exact ⟨by rw [merge_eq_specStat s'.disk hc'.roots, hsp]; exact hv, hc'⟩
+
+/-- a successful mkdir leaves a directory with the requested mode at the path, and that directory
+    is EMPTY in the union — whatever the lower layers have at and below that path (a deleted
+    lower directory of the same name does not come back: the F6 property, on the level of the
+    union) -/
+theorem mkdir_refines_plain_fs (s : St) (hc : Consistent s) (p : List Name) (mode : Nat) (r : Reply) (s' : St)
+    (h : runOp (.mkdir p mode) s = .ok r s') :
+    merge s'.disk p.reverse = .dir mode 0 ∧
+      (∀ (c : Name) (q : List Name), merge s'.disk (q ++ c :: p.reverse) = .none) ∧ Consistent s' := by
+  obtain ⟨hc', ⟨X', hsp, hv⟩, hempty⟩ := (runOp_mkdir_eff p mode s hc).1 r s' h
+  refine ⟨by rw [merge_eq_specStat s'.disk hc'.roots, hsp]; exact hv, fun c q => ?_, hc'⟩
+  exact merge_none_below s'.disk hc'.roots _ (hempty rfl c) q
+
+/-- a successful link makes the new name show exactly what the old name shows (type, mode,
+    content, xattr: they are the same upper file from then on), which is a non-directory -/
+theorem link_refines_plain_fs (s : St) (hc : Consistent s) (src dst : List Name) (r : Reply) (s' : St)
+    (h : runOp (.link src dst) s = .ok r s') :
+    merge s'.disk dst.reverse = merge s'.disk src.reverse ∧ merge s'.disk src.reverse ≠ .none ∧
+      (∀ m x, merge s'.disk src.reverse ≠ .dir m x) ∧ Consistent s' := by
+  obtain ⟨hc', X, X', hs, hd, hv, hnd⟩ := (runOp_link_eff src dst s hc).1 r s' h
+  have hvis : X.isWhiteout = false ∧ X.isAbsent = false := by
+    -- what LOOKUP answers is never a whiteout or nothing
+    rw [specStat_eq] at hs
+    cases he : expReals s'.disk src.reverse with
+    | nil => rw [he] at hs; cases hs
+    | cons e erest =>
+      rw [he] at hs
+      simp only [headStat] at hs
+      by_cases hw : e.whiteout = true
+      · simp [hw] at hs
+      · simp only [hw, Bool.false_eq_true, if_false, Option.some.injEq] at hs
+        have hex := expReals_eq s'.disk hc'.roots src.reverse
+        rw [he] at hex
+        cases hi : expIdx s'.disk src.reverse with
+        | nil => rw [hi] at hex; cases hex
+        | cons i irest =>
+          rw [hi] at hex
+          simp only [List.map_cons, List.cons.injEq] at hex
+          have hew : e.whiteout = (s'.disk.nodeAt i src.reverse).isWhiteout := by rw [hex.1]; rfl
+          have hst : s'.disk.statReal e = s'.disk.nodeAt i src.reverse := by rw [hex.1]; rfl
+          rw [← hs, hst]
+          refine ⟨by rw [← hew]; simpa using hw, ?_⟩
+          cases hsrc : src.reverse with
+          | nil =>
+            have : i ∈ s'.disk.indices := by
+              have : expIdx s'.disk [] = s'.disk.indices := rfl
+              rw [← this, ← hsrc, hi]; simp
+            have hdir := hc'.roots i this
+            cases hn : s'.disk.nodeAt i [] <;> simp_all [Node.isDir, Node.isAbsent]
+          | cons n pp =>
+            rw [hsrc] at hi
+            exact expIdx_present s'.disk n pp i (by rw [hi]; simp)
+  rw [merge_eq_specStat s'.disk hc'.roots, merge_eq_specStat s'.disk hc'.roots, hs, hd]
+  refine ⟨hv, ?_, ?_, hc'⟩
+  · cases X <;> simp_all [viewOfStat, Node.view, Node.isWhiteout, Node.isAbsent]
+  · intro m x
+    cases X <;> simp_all [viewOfStat, Node.view, Node.isDir]
+
+/-! The attribute-changing operations.  `ViewChanged d d' q gv` (Fbr.Lemmas.OvlAttrOps): at `q` the
+    union of `d'` shows `gv w`, where `w` is what the union of `d` showed up to the `user.x` xattr
+    (`w.dropX = (merge d q).dropX`): when the node has to be copied up first its type, mode,
+    content and link target are preserved and only the xattr is lost (known finding
+    `C10:copy-up:xattr-lost`).  `chmodV`, `truncV`, `writeV`, `openV`, `setxV` are the obvious
+    changes of a visible node (`pwrite` / `resize` are pwrite(2) / ftruncate(2) on chunk lists). -/
+
+theorem chmod_refines_plain_fs (s : St) (hc : Consistent s) (p : List Name) (mode : Nat) (r : Reply) (s' : St)
+    (h : runOp (.chmod p mode) s = .ok r s') :
+    Consistent s' ∧ ViewChanged s.disk s'.disk p.reverse (chmodV mode) := by
+  obtain ⟨st, hsp, hch⟩ := (runOp_chmod_eff s.disk p mode s ⟨hc, rfl⟩).1 r s' h
+  exact viewChanged_of_changed hc.roots hsp hch _ (chmodN_view mode)
+
+theorem truncate_refines_plain_fs (s : St) (hc : Consistent s) (p : List Name) (k : Nat) (r : Reply) (s' : St)
+    (h : runOp (.truncate p k) s = .ok r s') :
+    Consistent s' ∧ ViewChanged s.disk s'.disk p.reverse (truncV k) := by
+  obtain ⟨st, hsp, hch⟩ := (runOp_truncate_eff s.disk p k s ⟨hc, rfl⟩).1 r s' h
+  exact viewChanged_of_changed hc.roots hsp hch _ (truncN_view k)
+
+/-- OPEN(flags) + WRITE(off, data) + RELEASE: with O_TRUNC the old content goes first, with
+    O_APPEND the data lands at the end -/
+theorem write_refines_plain_fs (s : St) (hc : Consistent s) (p : List Name) (fl : OFlag) (off : Nat)
+    (data : List Nat) (r : Reply) (s' : St) (h : runOp (.write p fl off data) s = .ok r s') :
+    Consistent s' ∧ ViewChanged s.disk s'.disk p.reverse (writeV fl.isTrunc (fl == .wa) off data) := by
+  obtain ⟨st, hsp, hch⟩ := (runOp_write_eff s.disk p fl off data s ⟨hc, rfl⟩).1 r s' h
+  exact viewChanged_of_changed hc.roots hsp hch _ (writeAllN_view _ _ off data)
+
+/-- OPEN with a writing flag: only O_TRUNC changes what is visible -/
+theorem open_refines_plain_fs (s : St) (hc : Consistent s) (p : List Name) (fl : OFlag) (hfl : fl.isWrite = true)
+    (r : Reply) (s' : St) (h : runOp (.open p fl) s = .ok r s') :
+    Consistent s' ∧ ViewChanged s.disk s'.disk p.reverse (openV fl.isTrunc) := by
+  obtain ⟨st, hsp, hch⟩ := (runOp_openW_eff s.disk p fl hfl s ⟨hc, rfl⟩).1 r s' h
+  exact viewChanged_of_changed hc.roots hsp hch _ (openN_view _)
+
+/-- setxattr: the value is exactly the new one (nothing of the old xattr matters) -/
+theorem setxattr_refines_plain_fs (s : St) (hc : Consistent s) (p : List Name) (v : Nat) (r : Reply) (s' : St)
+    (h : runOp (.setx p v) s = .ok r s') :
+    Consistent s' ∧ ViewChanged s.disk s'.disk p.reverse (setxV v) := by
+  obtain ⟨st, hsp, hch⟩ := (runOp_setx_eff s.disk p v s ⟨hc, rfl⟩).1 r s' h
+  exact viewChanged_of_changed hc.roots hsp hch _ (setxN_view v)
+
+theorem removexattr_refines_plain_fs (s : St) (hc : Consistent s) (p : List Name) (r : Reply) (s' : St)
+    (h : runOp (.rmx p) s = .ok r s') :
+    Consistent s' ∧ ViewChanged s.disk s'.disk p.reverse (setxV 0) := by
+  obtain ⟨st, hsp, hch⟩ := (runOp_rmx_eff s.disk p s ⟨hc, rfl⟩).1 r s' h
+  exact viewChanged_of_changed hc.roots hsp hch _ (setxN_view 0)
+
+/-- for setxattr the statement without the "up to the xattr" clause: type, mode and content are
+    exactly the old ones, the xattr is the new value -/
+theorem setxattr_exact (s : St) (hc : Consistent s) (p : List Name) (v : Nat) (r : Reply) (s' : St)
+    (h : runOp (.setx p v) s = .ok r s') :
+    merge s'.disk p.reverse = setxV v (merge s.disk p.reverse) := by
+  obtain ⟨_, w, hw, hm⟩ := setxattr_refines_plain_fs s hc p v r s' h
+  rw [hm]
+  cases w <;> cases hx : merge s.disk p.reverse <;> simp_all [VNode.dropX, setxV]
 
 /-! non-vacuity of the hypotheses: the example disk is well-formed -/
 example : exDisk.RootsOK := by
